@@ -287,6 +287,8 @@ class Sim:
         return f"c{self.conns.index(c)}" if c in self.conns else "c?"
 
     def io_iteration(self):
+        if getattr(self, "_io_dead", False):
+            return                      # the connection thread died of an exception: nothing runs any more
         self.env.select_budget = 1
         th = self.node._connection_thread
         self._in_io = True
@@ -297,6 +299,7 @@ class Sim:
         except Exception as e:  # noqa
             self.obs.append(f"CRASH io {type(e).__name__}")
             self.env.crashes.append(("io", e))
+            self._io_dead = True
         finally:
             self._in_io = False
         self._track_new_conns()
@@ -465,6 +468,16 @@ class Sim:
                 s.inbox.append(data)
                 self.env.want_read.add(s)
             self.settle()
+        elif op == "rxcut":
+            s = self.sock(int(t[1]))
+            b1, b2 = build_msg(t[3]), build_msg(t[4])
+            cut = len(b1) + max(1, min(int(t[2]), len(b2) - 1))
+            data = b1 + b2
+            for part in (data[:cut], data[cut:]):
+                if s is not None and not s.closed:
+                    s.inbox.append(part)
+                    self.env.want_read.add(s)
+                self.settle()
         elif op == "rxraw":
             s = self.sock(int(t[1]))
             if s is not None and not s.closed:
